@@ -90,6 +90,9 @@ def handle (j : Json) : List (String × Json) :=
     if failAt ≠ 0 && failAt ≤ tr.length then
       showOutcome (tr.take failAt) none (some (.tree s!"injected-fault-{failAt}"))
     else showOutcome tr (some v) none
-  [("m", m), ("s", s), ("dc", Json.bool (dupKeys p || multiIn t p))]
+  -- a callback that panics with a value that says nothing: still an error, but not the tree's
+  let opq := jstr j "panic" = "int" || jstr j "panic" = "struct"
+  let fix (x : String) : String := if opq then x.replace s!"error:tree:injected-fault-{failAt}" "error:internal" else x
+  [("m", fix m), ("s", fix s), ("dc", Json.bool (dupKeys p || multiIn t p))]
 
 end YV.Drv.C02
